@@ -331,7 +331,7 @@ def _first_worker (item):
 def run (cfg):
   rep = Report(PID, "model_checking")
   cs = configs(cfg.quick)
-  if cfg.only: cs = [c for c in cs if cfg.only in cfg_name(c)]
+  if cfg.only: cs = [c for c in cs if cfg.only in cfg_name(c) + "/bound%d" % c["bound"]]
   items = []
   pts = {}
   for ci, kids, npts in pmap(_first_worker, list(enumerate(cs)), cfg.workers):
